@@ -44,7 +44,13 @@ impl Script {
     }
     fn step(&mut self, want: usize) -> Result<usize, VErr> {
         if self.pos >= self.len {
-            // script too short for this execution: outside the bound, cut the path
+            // a zero-length transfer or a hard error ends every transfer form: calling the stream again after one is a
+            // violation (e.g. a retry loop that retries on errors other than EINTR), not a script that is too short
+            assert!(
+                !(self.pos > 0 && (self.kind[self.pos - 1] == 1 || self.kind[self.pos - 1] == 3)),
+                "stream called again after a zero-length transfer or a hard error"
+            );
+            // otherwise the script is too short for this execution: outside the bound, cut the path
             self.exhausted = true;
             kani::assume(false);
         }
